@@ -84,9 +84,9 @@ class ZoomFastFourierTransform(FourierTransform):
         f = (field * self.input_weights).shaped
 
         for i, (czt, shift) in enumerate(zip(self.czts, self.shifts)):
-            f = np.moveaxis(f, -i, 0)
+            f = np.moveaxis(f, -i - 1, -1)
             f = czt(f) * shift
-            f = np.moveaxis(f, -i, 0)
+            f = np.moveaxis(f, -1, -i - 1)
 
         shape = tuple(field.tensor_shape) + (-1,)
 
@@ -110,9 +110,9 @@ class ZoomFastFourierTransform(FourierTransform):
         f = (field * self.output_weights).shaped
 
         for i, (czt, shift) in enumerate(zip(self.inv_czts, self.inv_shifts)):
-            f = np.moveaxis(f, -i, 0)
+            f = np.moveaxis(f, -i - 1, -1)
             f = czt(f) * shift
-            f = np.moveaxis(f, -i, 0)
+            f = np.moveaxis(f, -1, -i - 1)
 
         shape = tuple(field.tensor_shape) + (-1,)
 
